@@ -118,6 +118,7 @@ type frameEnc struct {
 	id, fc   int64
 	data     int64
 	words    map[*types.Var][2]interface{} // receiver field -> (offset int64, order string)
+	wordCall map[*types.Var]*ast.CallExpr
 	crcFn    *types.Func
 	crcSpanT int64 // checksum covers buf[:len-crcSpanT]
 	crcAt    int64 // stored at buf[len-crcAt:]
@@ -128,7 +129,7 @@ type frameEnc struct {
 func c19ParseEncode(c *kit.Ctx, m *c19Model, f *kit.Func) *frameEnc {
 	info := f.Info()
 	b := kit.AnalyseBounds(c.P, f)
-	fe := &frameEnc{id: -1, fc: -1, data: -1, total: -1, words: map[*types.Var][2]interface{}{}}
+	fe := &frameEnc{id: -1, fc: -1, data: -1, total: -1, words: map[*types.Var][2]interface{}{}, wordCall: map[*types.Var]*ast.CallExpr{}}
 	params := f.Params()
 	var idP, pduP *types.Var
 	for _, p := range params {
@@ -250,6 +251,7 @@ func c19ParseEncode(c *kit.Ctx, m *c19Model, f *kit.Func) *frameEnc {
 						k = v
 					}
 					fe.words[fld] = [2]interface{}{k, order}
+					fe.wordCall[fld] = call
 					return true
 				}
 				if crcVar != nil && kit.ObjOf(info, call.Args[1]) == crcVar && low != nil {
@@ -538,7 +540,7 @@ func mbReturnsNil(f *kit.Func, st *kit.Std, e kit.Exit) string {
 }
 
 func c19R2(c *kit.Ctx, m *c19Model) {
-	r := c.Rule("R2", "framing: checksum, layout and transaction id agree between encode and decode; bounds", 31)
+	r := c.Rule("R2", "framing: checksum, layout and transaction id agree between encode and decode; bounds", 33)
 	var frameFuncs []*kit.Func
 	seen := map[*kit.Func]bool{}
 	add := func(f *kit.Func) {
@@ -548,6 +550,17 @@ func c19R2(c *kit.Ctx, m *c19Model) {
 		}
 	}
 	nCRC, nTx := 0, 0
+	var crcFns []*types.Func
+	addCrc := func(fn *types.Func) {
+		for _, x := range crcFns {
+			if x == fn {
+				return
+			}
+		}
+		if fn != nil {
+			crcFns = append(crcFns, fn)
+		}
+	}
 	for _, t := range m.Transports {
 		add(t.Encode)
 		add(t.Decode)
@@ -590,6 +603,8 @@ func c19R2(c *kit.Ctx, m *c19Model) {
 		// checksum
 		if fe.crcFn != nil || fd.crcFn != nil {
 			nCRC++
+			addCrc(fe.crcFn)
+			addCrc(fd.crcFn)
 			o := r.Ob(t.Decode, nil, name+": checksum agreement", "encode and decode compute the same checksum function over all but the trailing bytes and store/read it in the same place and byte order")
 			callsSum := func(f *kit.Func, depth int) bool {
 				found := false
@@ -724,11 +739,14 @@ func c19R2(c *kit.Ctx, m *c19Model) {
 				continue
 			}
 			// the role constant under which the encoder advances the id
-			roleFld, roleVal, roleOK := c19IncrementGuard(t.Encode, fld)
+			roleFld, roleVal, roleOK := c19IncrementGuard(c, t.Encode, fld)
+			oAdv := r.Ob(t.Encode, fe.wordCall[fld], name+": fresh transaction id", "in the requesting role every encode advances the transaction id exactly once, on every path, before writing it: two requests never carry the same id")
 			if !roleOK {
+				oAdv.Undecided("no increment of %s under a `role == constant` guard found in the encoder", fld.Name())
 				o.Undecided("the encoder does not advance %s under a `role == constant` guard before writing it", fld.Name())
 				continue
 			}
+			c19FreshID(c, oAdv, t.Encode, fld, roleFld, roleVal, fe.wordCall[fld])
 			st := &kit.Std{F: t.Decode}
 			dinfo := t.Decode.Info()
 			st.Eval.Atom = func(e ast.Expr) (string, bool, bool) {
@@ -785,38 +803,221 @@ func c19R2(c *kit.Ctx, m *c19Model) {
 	if nCRC == 0 {
 		c.Fatalf("no checksummed transport found")
 	}
+	for _, fn := range crcFns {
+		c19ChecksumTotal(c, m, r, fn)
+	}
 	if nTx == 0 {
 		c.Fatalf("no transport with a transaction id found")
 	}
 	boundsRule(c, r, frameFuncs, nil)
 }
 
-// c19IncrementGuard finds `if recv.role == CONST { recv.fld++ }` in the
-// encoder, dominating the write of fld, and returns the role field and the
-// constant's value.
-func c19IncrementGuard(f *kit.Func, fld *types.Var) (*types.Var, string, bool) {
+// incrementsOnce: m is a method of f's receiver type that advances recv.fld
+// exactly once on every path ("" = yes, otherwise why not / "no" = it never does).
+func incrementsOnce(c *kit.Ctx, h *kit.Func, fld *types.Var, depth int) string {
+	if h == nil || h.Decl == nil || h.Decl.Recv == nil || depth > 2 {
+		return "no"
+	}
+	touches := false
+	ast.Inspect(h.Body, func(n ast.Node) bool {
+		switch y := n.(type) {
+		case *ast.IncDecStmt:
+			if recvField(h, y.X) == fld {
+				touches = true
+			}
+		case *ast.AssignStmt:
+			for _, l := range y.Lhs {
+				if recvField(h, l) == fld {
+					touches = true
+				}
+			}
+		}
+		return true
+	})
+	if !touches {
+		return "no"
+	}
+	st := &kit.Std{F: h}
+	st.OnNode = func(n ast.Node, s kit.S) []kit.S {
+		return []kit.S{countAdvance(c, h, fld, n, s, depth)}
+	}
+	res := c.P.Graph(h).Run(kit.NewS(), st.Client())
+	c.AddValuations(1)
+	for _, e := range res.Exits {
+		if e.State.Get("inc") != "1" {
+			return "it advances the id " + map[string]string{"": "0", "2+": "2 or more", "?": "an unknown number of"}[e.State.Get("inc")] + " times on some path"
+		}
+	}
+	return ""
+}
+
+// countAdvance updates the "inc" counter of s for node n of f: recv.fld++,
+// recv.fld += 1, or a call of a receiver method that advances it exactly once.
+func countAdvance(c *kit.Ctx, f *kit.Func, fld *types.Var, n ast.Node, s kit.S, depth int) kit.S {
+	bump := func(s kit.S) kit.S {
+		switch s.Get("inc") {
+		case "":
+			return s.Set("inc", "1")
+		case "1", "2+":
+			return s.Set("inc", "2+")
+		}
+		return s
+	}
+	switch y := n.(type) {
+	case *ast.IncDecStmt:
+		if recvField(f, y.X) == fld {
+			if y.Tok == token.INC {
+				return bump(s)
+			}
+			return s.Set("inc", "?")
+		}
+	case *ast.AssignStmt:
+		for _, l := range y.Lhs {
+			if recvField(f, l) == fld {
+				if y.Tok == token.ADD_ASSIGN && len(y.Rhs) == 1 {
+					if k, isC := kit.ConstInt(f.Info(), y.Rhs[0]); isC && k == 1 {
+						return bump(s)
+					}
+				}
+				return s.Set("inc", "?")
+			}
+		}
+	}
+	for _, call := range kit.CallsIn(n) {
+		sel, ok := ast.Unparen(call.Fun).(*ast.SelectorExpr)
+		if !ok || kit.ObjOf(f.Info(), sel.X) != recvObj(f) {
+			continue
+		}
+		h := f.CalleeFunc(call)
+		switch why := incrementsOnce(c, h, fld, depth+1); why {
+		case "":
+			s = bump(s)
+		case "no":
+		default:
+			s = s.Set("inc", "?")
+		}
+	}
+	return s
+}
+
+// c19FreshID: with role == roleVal, every path of the encoder reaches the
+// write of the id having advanced it exactly once.
+func c19FreshID(c *kit.Ctx, o *kit.Ob, f *kit.Func, fld, roleFld *types.Var, roleVal string, write *ast.CallExpr) {
+	info := f.Info()
+	st := &kit.Std{F: f}
+	st.Eval.Atom = func(e ast.Expr) (string, bool, bool) {
+		if a, b, op, ok := kit.CmpAtom(e); ok && (op == token.EQL || op == token.NEQ) {
+			for _, pr := range [][2]ast.Expr{{a, b}, {b, a}} {
+				if recvField(f, pr[0]) == roleFld {
+					if s, isC := kit.ConstString(info, pr[1]); isC {
+						if s == roleVal {
+							return "role", op == token.NEQ, true
+						}
+						return "role", op == token.EQL, true
+					}
+				}
+			}
+		}
+		return "", false, false
+	}
+	st.OnBranch = func(br kit.Branch, s kit.S) (tt, ff []kit.S, handled bool) {
+		if br.Kind == kit.BrCase && br.Tag != nil && recvField(f, br.Tag) == roleFld {
+			if v, isC := kit.ConstString(info, br.Case); isC {
+				if v == roleVal {
+					return []kit.S{s}, nil, true
+				}
+				return nil, []kit.S{s}, true
+			}
+		}
+		return nil, nil, false
+	}
+	seen := map[string]bool{}
+	reached := false
+	st.OnNode = func(n ast.Node, s kit.S) []kit.S {
+		// the write is observed before the node's own effect is counted
+		for _, call := range kit.CallsIn(n) {
+			if call == write {
+				reached = true
+				seen[s.Get("inc")] = true
+			}
+		}
+		return []kit.S{countAdvance(c, f, fld, n, s, 0)}
+	}
+	c.P.Graph(f).Run(kit.NewS().Set("a:role", "T"), st.Client())
+	c.AddValuations(1)
+	switch {
+	case !reached:
+		o.Undecided("the write of the transaction id was not reached")
+	case seen[""]:
+		o.Violation("in the requesting role (%s == %q) a path reaches `%s` without having advanced %s: the increment is guarded by other state, so two different requests can carry the same transaction id and a late reply to the first is accepted for the second", roleFld.Name(), roleVal, trunc(f.Str(write), 50), fld.Name())
+	case seen["2+"]:
+		o.Violation("a path advances %s more than once before writing it", fld.Name())
+	case seen["?"]:
+		o.Undecided("%s is modified in a way that is not a single increment", fld.Name())
+	default:
+		o.OK("every path to `%s` with %s == %q advances %s exactly once", trunc(f.Str(write), 50), roleFld.Name(), roleVal, fld.Name())
+	}
+}
+
+// c19IncrementGuard finds the `recv.role == CONST` test that encloses the
+// statement advancing recv.fld (an increment or a call of a receiver method
+// that always increments it) and returns the role field and the constant.
+func c19IncrementGuard(c *kit.Ctx, f *kit.Func, fld *types.Var) (*types.Var, string, bool) {
 	info := f.Info()
 	var role *types.Var
 	val := ""
 	found := false
-	ast.Inspect(f.Body, func(n ast.Node) bool {
-		ifs, ok := n.(*ast.IfStmt)
-		if !ok || ifs.Else != nil {
-			return true
-		}
-		a, b, op, ok := kit.CmpAtom(ifs.Cond)
-		if !ok || op != token.EQL {
-			return true
-		}
-		for _, pr := range [][2]ast.Expr{{a, b}, {b, a}} {
-			rf := recvField(f, pr[0])
-			s, isC := kit.ConstString(info, pr[1])
-			if rf == nil || !isC {
+	consider := func(site ast.Node) {
+		for n := f.Enclosing(site, func(ast.Node) bool { return true }); n != nil; n = f.Enclosing(n, func(ast.Node) bool { return true }) {
+			ifs, ok := n.(*ast.IfStmt)
+			if !ok {
 				continue
 			}
-			for _, st := range ifs.Body.List {
-				if inc, ok := st.(*ast.IncDecStmt); ok && inc.Tok == token.INC && recvField(f, inc.X) == fld {
-					role, val, found = rf, s, true
+			// the site must be in the then-branch
+			if site.Pos() < ifs.Body.Pos() || site.End() > ifs.Body.End() {
+				continue
+			}
+			// conjuncts of the condition
+			var conj []ast.Expr
+			var split func(e ast.Expr)
+			split = func(e ast.Expr) {
+				if be, ok := ast.Unparen(e).(*ast.BinaryExpr); ok && be.Op == token.LAND {
+					split(be.X)
+					split(be.Y)
+					return
+				}
+				conj = append(conj, e)
+			}
+			split(ifs.Cond)
+			for _, cj := range conj {
+				a, b, op, ok := kit.CmpAtom(cj)
+				if !ok || op != token.EQL {
+					continue
+				}
+				for _, pr := range [][2]ast.Expr{{a, b}, {b, a}} {
+					if rf := recvField(f, pr[0]); rf != nil {
+						if s, isC := kit.ConstString(info, pr[1]); isC {
+							role, val, found = rf, s, true
+						}
+					}
+				}
+			}
+		}
+	}
+	ast.Inspect(f.Body, func(n ast.Node) bool {
+		switch y := n.(type) {
+		case *ast.IncDecStmt:
+			if y.Tok == token.INC && recvField(f, y.X) == fld {
+				consider(y)
+			}
+		case *ast.AssignStmt:
+			if y.Tok == token.ADD_ASSIGN && len(y.Lhs) == 1 && recvField(f, y.Lhs[0]) == fld {
+				consider(y)
+			}
+		case *ast.CallExpr:
+			if sel, ok := ast.Unparen(y.Fun).(*ast.SelectorExpr); ok && kit.ObjOf(info, sel.X) == recvObj(f) {
+				if incrementsOnce(c, f.CalleeFunc(y), fld, 1) == "" {
+					consider(y)
 				}
 			}
 		}
